@@ -106,3 +106,19 @@ FRAME_FLAGS = {
 ERROR_CODES = {'INVALID_SETUP': 0x001, 'UNSUPPORTED_SETUP': 0x002, 'REJECTED_SETUP': 0x003, 'REJECTED_RESUME': 0x004,
                'CONNECTION_ERROR': 0x101, 'CONNECTION_ERROR_NO_RETRY': 0x102, 'APPLICATION_ERROR': 0x201,
                'REJECTED': 0x202, 'CANCELED': 0x203, 'INVALID': 0x204}
+
+# What the receive loop must do with a connection-level frame or a new request (protocol: "Frame types" and the
+# per-interaction sections).  ('app', application method, responder class created, payload data taken from frame.data)
+# or ('method', the method whose behaviour the named property's rules decide).
+DISPATCH_ROWS = {
+    'RequestResponseFrame': ('app', 'request_response', 'RequestResponseResponder', True),
+    'RequestStreamFrame': ('app', 'request_stream', 'RequestStreamResponder', True),
+    'RequestChannelFrame': ('app', 'request_channel', 'RequestChannelResponder', True),
+    'RequestFireAndForgetFrame': ('app', 'request_fire_and_forget', None, True),
+    'MetadataPushFrame': ('app', 'on_metadata_push', None, False),
+    'ErrorFrame': ('app', 'on_error', None, True),
+    'SetupFrame': ('method', 'handle_setup'),
+    'ResumeFrame': ('method', 'handle_resume'),
+    'LeaseFrame': ('method', 'handle_lease'),
+    'KeepAliveFrame': ('method', 'handle_keep_alive'),
+}
